@@ -34,7 +34,9 @@ HAPPY = [
     (["okta", "vip"], [("Login", {"slot": "s1", "user": "alice"}), ("OktaOTP", {"cred": _c("s1"), "owner": "alice"})]),
     (["okta", "vip"], [("Login", {"slot": "s2", "user": "bob"}), ("OktaStart", {"cred": _c("s2")}), ("OktaApprove", {"user": "bob"}),
                        ("OktaPoll", {"cred": _c("s2")})]),
-]
+] + [(["okta", "vip"], [("Login", {"slot": "s2", "user": "bob"}), ("OktaStart", {"cred": _c("s2")}),
+                        ("OktaDecline", {"user": "bob", "how": how}), ("OktaPoll", {"cred": _c("s2")}), ("OktaPoll", {"cred": _c("s2")})])
+     for how in ("timeout", "rejected")]
 
 
 def happy_traces():
